@@ -44,10 +44,10 @@ CLAIMED["C04"] = (
     "proptest stateful chains: trace -> simplify -> compare child with original parent on the traced domain, all evaluator kinds, JIT and 9 interpreter budget pairs",
     "Generated-input search over DAGs rich in min/max/and/or, multi-output, with chains of up to 4 nested simplifications whose traces come "
     "from interval or point evaluators of either backend; after each step the newest child is compared bit-for-bit with the ORIGINAL parent at points "
-    "of the traced box under point, float-slice and gradient-slice evaluators, its interval evaluator must stay sound, simplify must accept every trace "
+    "of the traced box under point, float-slice and gradient-slice evaluators (value and the three derivative components), its interval evaluator must stay sound, simplify must accept every trace "
     "just returned, and variable numbering / output count must be kept. Exploration.",
     "Mismatches downstream of listed open findings (F7 zero-tie, F11 NaN-from-infinity, F12 grad abs(-0)) are attributed by a reference evaluation of the "
-    "whole graph at the failing point and reported as KNOWN-FINDING; everything else is a violation. x86_64 only.",
+    "whole graph at the failing point (for the first step of a chain, F11 and F6 additionally need an interval-side witness on the traced box) and reported as KNOWN-FINDING; everything else is a violation. x86_64 only.",
     "DESIGN.md §3 C04",
 )
 CLAIMED["C05"] = (
@@ -62,15 +62,15 @@ CLAIMED["C06"] = (
     "proptest brute-force reference: every pixel of generated scenes vs graph evaluation at the pixel's sample position (bit-exact in pixel-perfect mode)",
     "Generated scenes (CSG / random DAGs / bundled models x image sizes 1..150 non-square x transforms x tile lists x pixel-perfect x backend x thread pool); "
     "every pixel is re-derived independently: sample position through the documented screen-to-world map and the world-to-model matrix, value by graph "
-    "evaluation; Fill pixels must have the right sign, Value pixels the exact value. Exploration of scene/configuration space; each scene is checked exhaustively.",
+    "evaluation; Fill pixels must have the right sign, Value pixels the exact value and an inside report that follows it (a NaN is outside). Exploration of scene/configuration space; each scene is checked exhaustively.",
     "Trusts nalgebra for matrix products / transform_point and per-opcode graph evaluation for values (C01/C12).",
     "DESIGN.md §3 C06",
 )
 CLAIMED["C07"] = (
-    "proptest brute-force reference: per-voxel evaluation of the whole (extended) grid vs rendered depth; normals vs gradient evaluator on the unsimplified function",
-    "Generated 3D scenes with occlusion, grids with width != height != depth and not multiples of the root tile, tile lists, transforms, both backends, thread "
+    "proptest brute-force reference: per-voxel evaluation of the whole (extended) grid vs rendered depth; normals vs gradient evaluator on the unsimplified function and vs the model-space gradient through the f64 Jacobian of the view map",
+    "Generated 3D scenes with occlusion, grids with width != height != depth and not multiples of the root tile, tile lists, affine and perspective views, both backends, thread "
     "pools; every column is re-derived by evaluating every voxel; depth, saturation and empty conventions and normals are compared exactly. Exploration; each scene exhaustive.",
-    "Columns with an inside voxel above the grid are outside the claim (counted). Normals are compared with the library's gradient evaluator on the unsimplified shape, which C05 ties to true derivatives.",
+    "Columns with an inside voxel above the grid are outside the claim (counted). Normals are compared bit-for-bit with the library's gradient evaluator on the unsimplified shape under the same view matrix, and (independently of the library's Grad transform) with the model-space gradient pushed through the f64 Jacobian of the view map, tolerance 1e-3 of the summed magnitudes.",
     "DESIGN.md §3 C07",
 )
 
@@ -171,7 +171,7 @@ CLAIMED["C18"] = (
 CLAIMED["C19"] = (
     "proptest generated well-conditioned consistent linear systems with known solutions; residual / key-set / exact-start / backend-agreement predicates",
     "Generated diagonally dominant systems of 1-40 unknowns with random sparsity, a random subset of parameters fixed at their solution values and "
-    "random starts; the oracle is a validity predicate (exactly the free keys, small residual of the original system, bit-identical return for exact starts, "
+    "random starts; the oracle is a validity predicate (exactly the free keys, residual of the original system <= 2e-5 (1 + |b|), bit-identical return for exact starts, "
     "backend agreement), not one expected answer. Exploration.",
     "Systems with no free parameter are outside the stated quantifier. HashMap iteration order makes the solver's internal ordering vary between runs; the predicates do not depend on it.",
     "DESIGN.md §3 C19",
